@@ -117,6 +117,27 @@ func TestVerifC30_RoundTrip(t *testing.T) {
 	defer srcSrv.Close()
 	otherSrv := test.MustRunCommand()
 	defer otherSrv.Close()
+	// Decoys (a real server has many indexes): on each server two more indexes whose names sort before ("aa") and
+	// after ("zz") every index of the cases and that hold a field "f" of another type / with other keys settings:
+	// srcSrv: aa.f int, zz.f set with row keys; otherSrv: aa.f set with row keys (keyed index), zz.f set without keys.
+	for _, d := range []struct {
+		srv     *test.Command
+		index   string
+		idxKeys bool
+		opts    []pilosa.FieldOption
+	}{
+		{srcSrv, "aa", false, []pilosa.FieldOption{pilosa.OptFieldTypeInt(-10, 1000)}},
+		{srcSrv, "zz", true, []pilosa.FieldOption{pilosa.OptFieldTypeSet(pilosa.CacheTypeRanked, 100), pilosa.OptFieldKeys()}},
+		{otherSrv, "aa", true, []pilosa.FieldOption{pilosa.OptFieldTypeSet(pilosa.CacheTypeRanked, 100), pilosa.OptFieldKeys()}},
+		{otherSrv, "zz", false, []pilosa.FieldOption{pilosa.OptFieldTypeSet(pilosa.CacheTypeNone, 0)}},
+	} {
+		if _, err := d.srv.API.CreateIndex(context.Background(), d.index, pilosa.IndexOptions{Keys: d.idxKeys}); err != nil {
+			t.Fatalf("creating decoy index: %v", err)
+		}
+		if _, err := d.srv.API.CreateField(context.Background(), d.index, "f", d.opts...); err != nil {
+			t.Fatalf("creating decoy field: %v", err)
+		}
+	}
 	seq := 0
 	rapid.Check(t, func(t *rapid.T) {
 		rowKeys := rapid.Bool().Draw(t, "rowKeys")
